@@ -193,12 +193,22 @@ theorem kinv_recordInst (s : St) (g i : Nat) (y : G) (x : Inst) (h : KInv s)
           exact h0.curExited k' r' j z hk' hc he hz
     · exact h0
 
+theorem kinv_cancelAll (s : St) (h : KInv s) : KInv (cancelAll s) :=
+  foldl_inv (I := KInv) _ (fun s g h =>
+    foldl_inv (I := KInv) (fun s i => cancelOpt s g (some i)) (fun s i h => kinv_cancelOpt s g (some i) h) _ _ h) _ _ h
+
 theorem kinv_step (s s' : St) (e : Ev) (h : KInv s) (hs : step s e = some s') : KInv s' := by
   cases e with
   | nilnext k =>
     simp only [step] at hs
     split at hs
     · simp at hs; subst hs; exact kinv_congr (s := s) rfl rfl h
+    · simp at hs
+  | cancelroot =>
+    simp only [step] at hs
+    split at hs
+    · simp at hs; subst hs
+      exact kinv_cancelAll _ (kinv_congr (s := s) rfl rfl h)
     · simp at hs
   | config c =>
     simp only [step] at hs
@@ -217,7 +227,8 @@ theorem kinv_step (s s' : St) (e : Ev) (h : KInv s) (hs : step s e = some s') : 
     split at hs
     · rename_i op hc
       simp at hs; subst hs
-      exact kinv_congr (s := (execOp s op).1) rfl rfl (kinv_execOp s op h)
+      exact kinv_congr (s := (execOp (preOp s op) op).1) rfl rfl
+        (kinv_execOp (preOp s op) op (kinv_congr (preOp_keys s op) (preOp_fields s op).1 h))
     · simp at hs
   | ctor k d =>
     simp only [step] at hs
